@@ -83,7 +83,27 @@ fn res_paths(r: RvResult<Vec<PathBuf>>) -> Value {
 fn tf(b: bool) -> &'static str {
     if b { "t" } else { "f" }
 }
+/// the accessors of the wrapped backend entry, called on the concrete type (C13: the enum must be transparent)
+fn inner_view<E: Entry>(e: &E) -> Value {
+    json!({
+        "path": pv(e.path()), "alt": pv(e.alt()), "rel": pv(e.rel()),
+        "dir": tf(e.is_dir()), "file": tf(e.is_file()), "link": tf(e.is_symlink()),
+        "ldir": tf(e.is_symlink_dir()), "lfile": tf(e.is_symlink_file()),
+        "exec": tf(e.is_exec()), "ro": tf(e.is_readonly()), "following": tf(e.following()), "mode": e.mode(),
+        "same_bufs": tf(e.path_buf() == e.path() && e.alt_buf() == e.alt() && e.rel_buf() == e.rel()),
+    })
+}
 pub fn entry_view(e: &VfsEntry) -> Value {
+    let mut v = entry_view0(e);
+    let inner = match e {
+        VfsEntry::Memfs(x) => inner_view(x),
+        VfsEntry::Stdfs(x) => inner_view(x),
+    };
+    let same = inner == v;
+    v["wrap"] = json!(tf(same));
+    v
+}
+fn entry_view0(e: &VfsEntry) -> Value {
     json!({
         "path": pv(e.path()), "alt": pv(e.alt()), "rel": pv(e.rel()),
         "dir": tf(e.is_dir()), "file": tf(e.is_file()), "link": tf(e.is_symlink()),
